@@ -1,4 +1,5 @@
 import SspModel.Real
+import SspModel.Lemmas.Bridge.Bins
 import SspModel.Model.Bins
 import Mathlib.Analysis.SpecialFunctions.Pow.Real
 import Mathlib.Analysis.SpecialFunctions.Log.Basic
@@ -537,6 +538,15 @@ theorem carveBH_tiles (ms : List (Bin ℝ)) (bhMin : ℝ) (ht : Tiles ms) :
     | cons g gt => exact ⟨hlt, hf.2.1, hf.2.2⟩
 
 structure Statement : Prop where
+  /-- the carving masks and the two comparisons of the lookup are the source's own -/
+  source_carve : ∀ (ms : List (Bin ℝ)) (x : ℝ),
+    carveWD ms x = setLastUpper (ms.filter fun b => Generated.carve_WD_mask b.1 b.2 x) x ∧
+    carveBH ms x = setFirstLower (ms.filter fun b => Generated.carve_BH_mask b.1 b.2 x) x ∧
+    carveNS ms (14e-1 : ℝ) = (ms.filter fun b => Generated.carve_NS_mask b.1 b.2) ∧
+    Generated.carve_WD_edge_is_WDmax x = 1 ∧ Generated.carve_BH_edge_is_BHmin x = 1
+  source_lookup : ∀ (l u m : ℝ) (t : List (Bin ℝ)) (i : Nat) (acc : Option Nat),
+    lastLowerLe ((l, u) :: t) m i acc = lastLowerLe t m (i + 1) (if Generated.lookup_le l m then some i else acc) ∧
+    Generated.lookup_over u m = Scalar.le u m ∧ Generated.lookup_last_bin_test m = 1
   divide : ∀ N k : Nat, 0 < k → (divideBinSizes N k).length = k ∧ (divideBinSizes N k).sum = N
   linear : ∀ (lo hi : ℝ) (n : Nat), lo < hi → (linspace lo hi n).length = n + 1 ∧
     (linspace lo hi n).Pairwise (· < ·) ∧ (linspace lo hi n).getLast? = some hi ∧
@@ -571,6 +581,8 @@ structure Statement : Prop where
 /-- **C13 (partial)**: spacing, lookup, truncation and packing. Proved since the first version: tiling of the star bins,
     exactly one NS bin, WD bins tile up to the maximum WD mass. BH bins tile from the minimum BH mass. Not proved in Lean: where the IFMR bounds come from (C09). -/
 theorem C13_partial : Statement where
+  source_carve := fun ms x => ⟨Bridge.gen_carveWD ms x, Bridge.gen_carveBH ms x, Bridge.gen_carveNS ms, (Bridge.gen_carve_edges x).1, (Bridge.gen_carve_edges x).2⟩
+  source_lookup := fun l u m t i acc => ⟨Bridge.gen_lastLowerLe_cons l u m t i acc, Bridge.gen_lookup_over u m, Bridge.gen_lookup_last m⟩
   divide := fun N k hk => ⟨divide_length N k hk, divide_sum N k hk⟩
   linear := fun lo hi n h => ⟨linspace_length lo hi n, linspace_strict lo hi n h, linspace_getLast lo hi n,
     fun hn => by rw [linspace_head]; simp [Nat.pos_iff_ne_zero.1 hn]⟩
